@@ -43,7 +43,7 @@ static int32_t count_leaves(const parquet_schema_element_t* elements, int32_t co
  * Recursive schema traversal context for computing definition/repetition levels.
  */
 typedef struct {
-    const parquet_schema_element_t* elements;
+    parquet_schema_element_t* elements;
     int32_t num_elements;
     int16_t* max_def;
     int16_t* max_rep;
@@ -70,7 +70,7 @@ static int32_t traverse_schema_recursive(
         return element_idx;
     }
 
-    const parquet_schema_element_t* elem = &ctx->elements[element_idx];
+    parquet_schema_element_t* elem = &ctx->elements[element_idx];
 
     /* Calculate level contribution from this node's repetition type */
     int16_t this_def = def_level;
@@ -93,6 +93,10 @@ static int32_t traverse_schema_recursive(
                 break;
         }
     }
+
+    /* Remember the levels on the node itself for the per-node accessors */
+    elem->max_def_level = this_def;
+    elem->max_rep_level = this_rep;
 
     if (elem->num_children == 0) {
         /* Leaf node - record the accumulated levels */
@@ -133,7 +137,7 @@ static int32_t traverse_schema_recursive(
  *       └── g (optional, int32)    -> def=2, rep=1  (from e + self)
  */
 static void compute_levels(
-    const parquet_schema_element_t* elements,
+    parquet_schema_element_t* elements,
     int32_t num_elements,
     int16_t* max_def,
     int16_t* max_rep,
